@@ -745,6 +745,37 @@ m("C17", "dispatcher-wrong-state", IMPL,
   "	cb(ie.evt, nil)\n	return nil",
   "C17.1", "subscribers called without the resulting state")
 
+# ---------------- C18
+TC = "impl/timecounter.go"
+m("C18", "non-atomic-counter", TC,
+  "	counter := atomic.AddUint64(&tc.counter, 1)\n	return counter",
+  "	_ = atomic.LoadUint64\n	tc.counter++\n	return tc.counter",
+  "C18.1", "non-atomic id counter", "calibration")
+m("C18", "load-then-add", TC,
+  "	counter := atomic.AddUint64(&tc.counter, 1)\n	return counter",
+  "	counter := atomic.LoadUint64(&tc.counter) + 1\n	atomic.StoreUint64(&tc.counter, counter)\n	return counter",
+  "C18.1", "two concurrent opens can draw the same id")
+m("C18", "seed-from-seconds", TC,
+  "	return &timeCounter{counter: uint64(time.Now().UnixNano())}",
+  "	return &timeCounter{counter: uint64(time.Now().Unix())}",
+  "C18.1", "a later manager starts below the ids of an earlier one")
+m("C18", "id-from-clock", UT,
+  "	tid := datatransfer.TransferID(m.transferIDGen.next())",
+  "	_ = m.transferIDGen.next()\n	tid := datatransfer.TransferID(uint64(len(to)) + uint64(baseCid.ByteLen()))",
+  "C18.2", "ids drawn from the clock collide under concurrency")
+m("C18", "duplicate-create-proceeds", IMPL,
+  "	chid, err := m.channels.CreateNew(m.peerID, req.TransferID(), baseCid, selector, voucher,\n		m.peerID, m.peerID, requestTo) // initiator = us, sender = us, receiver = them\n	if err != nil {\n		return chid, err\n	}",
+  "	chid, err := m.channels.CreateNew(m.peerID, req.TransferID(), baseCid, selector, voucher,\n		m.peerID, m.peerID, requestTo) // initiator = us, sender = us, receiver = them\n	if err != nil {\n		log.Warnf(\"channel exists: %s\", err)\n		chid = datatransfer.ChannelID{Initiator: m.peerID, Responder: requestTo, ID: req.TransferID()}\n	}",
+  "C18.3", "a duplicate id re-opens the existing channel")
+m("C18", "create-via-send", CH,
+  "		log.Errorw(\"failed to create new tracking channel for data-transfer\", \"channelID\", chid, \"err\", err)\n		return datatransfer.ChannelID{}, err",
+  "		log.Errorw(\"failed to create new tracking channel for data-transfer\", \"channelID\", chid, \"err\", err)\n		return chid, c.stateMachines.Send(chid, datatransfer.Restart)",
+  "C18.3", "creating over an existing id restarts the existing channel")
+m("C18", "duplicate-request-accepted", RR,
+  "	if err != nil {\n		log.Errorw(\"failed to create tracking channel\", \"channelID\", chid, \"err\", err)\n		return result, err\n	}",
+  "	if err != nil {\n		log.Errorw(\"failed to create tracking channel\", \"channelID\", chid, \"err\", err)\n	}",
+  "C18.3", "a duplicate incoming request disturbs the existing channel")
+
 by = collections.defaultdict(list)
 for x in M:
     p = x.pop("prop")
